@@ -119,8 +119,8 @@ def rule_b(ctx: Context, R: Reporter):
 
 
 def run(ctx: Context, R: Reporter):
-    rule_a(ctx, R)
-    rule_b(ctx, R)
+    R.guard(rule_a, ctx, R)
+    R.guard(rule_b, ctx, R)
 
 
 def variants():
